@@ -242,6 +242,7 @@ def run(prog: Program, rep, tier="quick"):
     rep.floor("R05.3", 7)
     rep.floor("R05.1", 3)
     rep.floor("R05.2", 5)
+    r05_8(prog, rep)
 
 
 def r05_7(prog: Program, rep):
@@ -277,3 +278,48 @@ def r05_7(prog: Program, rep):
            not bad, "the poll `if can_read(): pkt = proto.read_pkt_line()` is reachable before _read_shallow_updates: a `shallow <sha>` line the server has "
            "already sent is read there and dropped as 'not an ACK'; the fetched tip keeps a missing parent without being recorded as shallow",
            g.nodes[(bad or polls)[0]].line)
+
+
+def r05_8(prog: Program, rep):
+    """A protocol v2 server answers EVERY fetch request that contains `shallow` lines with a shallow-info section, also when no
+    deepening was asked for (the section is empty then).  Either the response reader (_handle_upload_pack_tail) recognises the
+    section and consumes it up to its delimiter before it starts reading the side-band stream, or the request writer
+    (_handle_upload_pack_head) reads the shallow updates in the scenario {v2, shallow lines sent, no deepening}.  With neither, the
+    section header is taken for `packfile`, the side-band reader stops at the section's delimiter and the fetch 'succeeds' with zero
+    bytes of pack data (F05.2)."""
+    from sa.common import scenario_edge_filter
+    from sa.flow import reaching_defs
+    rep.rule("R05.8", "v2 fetch with shallow lines but no deepening: the shallow-info section is consumed before the side-band stream is read")
+    tail = prog.func("dulwich/client.py", "_handle_upload_pack_tail")
+    g = cfg_of(prog, tail)
+    tests = [i for i, n in g.nodes.items() if n.kind == "test" and any(isinstance(x, ast.Constant) and x.value in (b"shallow-info", b"shallow-info\n")
+                                                                        for x in ast.walk(n.ast))]
+    sb = [i for i, n in g.nodes.items() for c in node_calls(n) if callee_name(c) == "_read_side_band64k_data"]
+    if not sb:
+        raise AnalysisError("_handle_upload_pack_tail: side-band reader not found")
+    consume = [i for i, n in g.nodes.items() if i not in sb for c in node_calls(n) if callee_name(c) == "read_pkt_seq"]
+    ok_a = False
+    if tests:
+        starts = [b for t in tests for b, l in g.succ[t] if l == "true"]
+        ok_a = bool(consume) and not must_pass(g, sb, consume, start=starts)
+    head = prog.func("dulwich/client.py", "_handle_upload_pack_head")
+    gh = cfg_of(prog, head)
+    rd = reaching_defs(gh)
+
+    def atoms(e):
+        t = norm(e)
+        table = {"depth not in (0, None)": False, "depth is not None": False, "depth": False, "depth is None": True, "depth in (0, None)": True,
+                 "protocol_version != 2": False, "protocol_version == 2": True, "2 != protocol_version": False, "2 == protocol_version": True,
+                 "can_read is not None": True, "can_read is None": False, "can_read": True, "walker_shallow": True, "walker_shallow is not None": True,
+                 "walker_shallow is None": False, "deepening": False,
+                 # a non-None value can only come from an earlier _read_shallow_updates, i.e. from a path that has passed a read
+                 "shallow_updates is not None": False, "shallow_updates is None": True,
+                 "shallow_since is not None": False, "shallow_since is None": True, "shallow_exclude": False, "shallow_since": False}
+        return table.get(t)
+    edge_ok, decided = scenario_edge_filter(gh, rd, atoms)
+    reads = [i for i, n in gh.nodes.items() for c in node_calls(n) if callee_name(c) == "_read_shallow_updates"]
+    ok_b = bool(reads) and len(decided) >= 2 and not must_pass(gh, [gh.exit_normal], reads, edge_ok=edge_ok)
+    rep.ob("R05.8", "dulwich/client.py", tail.qual, "the (empty) shallow-info section of a v2 response is consumed before the side-band stream is read",
+           ok_a or ok_b, "neither does the response reader recognise `shallow-info` and read up to its delimiter, nor does the request writer read the "
+           "shallow updates when it sent shallow lines without deepening: the section is taken for `packfile`, zero bytes of pack data are read and "
+           "the fetch reports success - every plain fetch into a depth-limited clone from a C git server", g.nodes[sb[0]].line)
